@@ -43,6 +43,8 @@ pub enum IngItem {
 #[derive(Clone, Debug, PartialEq, Eq)]
 pub enum Op {
     Put(Vec<u8>, Vec<u8>),
+    /// two writers draw consecutive seqnos and reach the memtable in the opposite order
+    Put2(Vec<u8>, Vec<u8>, Vec<u8>, Vec<u8>),
     Del(Vec<u8>),
     WDel(Vec<u8>),
     Rotate,
@@ -124,6 +126,7 @@ impl Op {
     pub fn text(&self) -> String {
         match self {
             Op::Put(k, v) => format!("put {} {}", hex(k), hex(v)),
+            Op::Put2(k1, v1, k2, v2) => format!("put2 {} {} {} {}", hex(k1), hex(v1), hex(k2), hex(v2)),
             Op::Del(k) => format!("del {}", hex(k)),
             Op::WDel(k) => format!("wdel {}", hex(k)),
             Op::Rotate => "rotate".into(),
@@ -193,6 +196,7 @@ impl Op {
         let t: Vec<&str> = line.split_whitespace().collect();
         match t[0] {
             "put" => Op::Put(unhex(t[1]), unhex(t[2])),
+            "put2" => Op::Put2(unhex(t[1]), unhex(t[2]), unhex(t[3]), unhex(t[4])),
             "del" => Op::Del(unhex(t[1])),
             "wdel" => Op::WDel(unhex(t[1])),
             "rotate" => Op::Rotate,
